@@ -20,6 +20,8 @@ func seqSpecFor(id, tier string) *SeqSpec {
 		return specC04(tier)
 	case "C05":
 		return specC05(tier)
+	case "C18":
+		return specC18(tier)
 	}
 	return nil
 }
